@@ -38,7 +38,7 @@ static void transcript(tx_t* x, const char* path, int mode, int verify, int* ope
         maxdef[c] = md; carquet_column_reader_free(cr); }
     /* batch reader, batches retained until all were fetched */
     int64_t nrows = carquet_reader_num_rows(rd); int bss[] = {1, 7, 64, 100, (int)(nrows > 0 && nrows < 100000 ? nrows : 977), 65536};
-    for (int bi = 0; bi < 6; bi++) { int bs = bss[bi]; if (nrows > 2000 && bs < 7) continue; carquet_batch_reader_config_t cfg; carquet_batch_reader_config_init(&cfg); cfg.batch_size = bs; cfg.num_threads = 1;
+    for (int bi = 0; bi < 6; bi++) { int bs = bss[bi]; if ((nrows > 2000 && bs < 64) || (nrows > 500 && bs < 7)) continue; carquet_batch_reader_config_t cfg; carquet_batch_reader_config_init(&cfg); cfg.batch_size = bs; cfg.num_threads = 1;
         carquet_batch_reader_t* br = carquet_batch_reader_create(rd, &cfg, &err); if (!br) { tx_add(x, "batch bs=%d create FAILED %d", bs, err.code); continue; }
         size_t cap = 64, nb = 0; carquet_row_batch_t** held = (carquet_row_batch_t**)malloc(cap * sizeof *held); uint64_t* hh = (uint64_t*)malloc(cap * 8); int* hg = (int*)malloc(cap * sizeof(int));
         int cur_g = 0; int64_t in_g = 0;
